@@ -118,13 +118,17 @@ InitAR == /\ PhIdle
 NewEvents(ws, acc, b) ==
     LET idx == Sorted(acc) IN [j \in 1..Len(idx) |-> [k |-> nb + 1, i |-> idx[j], w |-> ws[idx[j]], bd |-> b]]
 
-Batch(ws, us) ==
+(* General form of a batch: `local` is the bound the batch is accepted with, `stored` the bound kept  *)
+(* for the following batches (before a thinning).  Only what the property needs is required of them;  *)
+(* the constants 1.01 / 1.1 / 1.05 of the implementation enter through Batch / Thin below.            *)
+BatchG(ws, us, local, stored) ==
     /\ pc = "loop" /\ ngen < arN /\ nb < MaxBatches
     /\ Len(ws) >= 1 /\ Len(us) = Len(ws)
-    /\ LET local == LocalBound(ws)
-           acc == Accepted(ws, us, local)
+    /\ RLe(RInt(MaxOf(ws)), local)                 \* accepted under a bound >= every weight of the batch
+    /\ (hasB => stored = bound)                    \* a stored bound changes only through a thinning
+    /\ (~hasB => RLe(local, stored))               \* a fresh stored bound covers its batch
+    /\ LET acc == Accepted(ws, us, local)
            new == NewEvents(ws, acc, local)
-           stored == IF ~hasB THEN RMul(FirstStoreF, local) ELSE bound    \* first-batch rule
            thin == RLt(stored, local) /\ (Variant = "interp" \/ nb > 0)  \* new > max_weight and len(all_data) > 0
        IN /\ hasB' = TRUE
           /\ bound' = stored
@@ -140,21 +144,28 @@ Batch(ws, us) ==
     /\ UNCHANGED <<arN, res>>
     /\ UNCHANGED phVars
 
-Thin(us) ==
+\* earlier events survive with probability old / new; their effective bound grows by new / old
+ThinG(us, newStored) ==
     /\ pc = "thin"
     /\ Len(us) = Len(evs)
+    /\ RLe(loc, newStored)                         \* the new stored bound covers the batch that caused the thinning
     /\ LET keep == {i \in DOMAIN evs : Kept(us[i], bound, loc)}
            idx == Sorted(keep)
            f == RDiv(loc, bound)
            old == [j \in 1..Len(idx) |-> [evs[idx[j]] EXCEPT !.bd = RMul(@, f)]]
        IN /\ evs' = old \o pend
           /\ ngen' = Len(old) + Len(pend)                                 \* a.set_gen ; a.add_gen
-    /\ bound' = RMul(AfterThinF, loc)
+    /\ bound' = newStored
     /\ nb' = nb + 1
     /\ pend' = <<>>
     /\ pc' = IF ngen' >= arN THEN "merge" ELSE "loop"
     /\ UNCHANGED <<arN, hasB, loc, res>>
     /\ UNCHANGED phVars
+
+\* the implementation: single_sampling2 + first-batch rule ; thinning stores new * 1.05
+StoredRule(local) == IF ~hasB THEN RMul(FirstStoreF, local) ELSE bound
+Batch(ws, us) == BatchG(ws, us, LocalBound(ws), StoredRule(LocalBound(ws)))
+Thin(us) == ThinG(us, RMul(AfterThinF, loc))
 
 Truncate ==
     /\ pc = "merge"
@@ -166,6 +177,16 @@ Truncate ==
 BatchStep == \E L \in 1..MaxLen : \E ws \in [1..L -> 0..MaxW], us \in [1..L -> UGrid] : Batch(ws, us)
 ThinStep == pc = "thin" /\ \E us \in [1..Len(evs) -> UGrid] : Thin(us)
 NextAR == BatchStep \/ ThinStep \/ Truncate
+
+\* exploration of the general actions: a few admissible choices of the bounds per batch
+LocalChoices(ws) == LET wmax == RInt(MaxOf(ws))
+                    IN {wmax, RMul(RaiseF, wmax), RMul(<<2, 1>>, wmax)} \cup (IF hasB /\ RLe(wmax, bound) THEN {bound} ELSE {})
+StoredChoices(local) == IF hasB THEN {bound} ELSE {local, RMul(FirstStoreF, local), RMul(<<3, 1>>, local)}
+BatchGStep == \E L \in 1..MaxLen : \E ws \in [1..L -> 0..MaxW], us \in [1..L -> UGrid] :
+                 \E local \in LocalChoices(ws) : \E stored \in StoredChoices(local) : BatchG(ws, us, local, stored)
+ThinGStep == pc = "thin" /\ \E us \in [1..Len(evs) -> UGrid] :
+                 \E ns \in {loc, RMul(AfterThinF, loc), RMul(<<2, 1>>, loc)} : ThinG(us, ns)
+NextARG == BatchGStep \/ ThinGStep \/ Truncate
 
 (* invariants of (a)                                                         *)
 ArTypeOK == /\ pc \in {"loop", "thin", "merge", "done", "off"}
